@@ -169,11 +169,34 @@ pub fn read<const N: usize, Ns>(reader: impl Read) -> Result<Mappings<N, Ns>> {
 	Ok(mappings)
 }
 
+/// Inverse of [`escape`]. A backslash that doesn't start one of the escape sequences is kept as it is.
 pub(crate) fn unescape(s: String) -> String {
-	s.replace("\\n", "\n")
+	let mut out = String::with_capacity(s.len());
+	let mut chars = s.chars();
+	while let Some(c) = chars.next() {
+		if c != '\\' {
+			out.push(c);
+			continue;
+		}
+		let replacement = match chars.clone().next() {
+			Some('\\') => Some('\\'),
+			Some('n') => Some('\n'),
+			Some('r') => Some('\r'),
+			Some('t') => Some('\t'),
+			_ => None,
+		};
+		if let Some(replacement) = replacement {
+			chars.next();
+			out.push(replacement);
+		} else {
+			out.push('\\');
+		}
+	}
+	out
 }
+/// Escapes backslash, line feed, carriage return and tab, as the tiny v2 format asks for.
 pub(crate) fn escape(s: &str) -> String {
-	s.replace('\n', "\\n")
+	s.replace('\\', "\\\\").replace('\n', "\\n").replace('\r', "\\r").replace('\t', "\\t")
 }
 
 fn add_comment(javadoc: &mut Option<JavadocMapping>, line: TinyLine) -> Result<()> {
